@@ -17,16 +17,17 @@ import (
 
 // walkModel: the walk, the chain-cloning function, the single-node clone.
 type walkModel struct {
-	tm       *tree.Model
-	shape    *walkShape
-	walk     *ssa.Function
-	chain    *ssa.Function // cloneHierarchy
-	clone    *ssa.Function
-	clones   []*ssa.Function // every single-node copy function: called by the chain clone (or by another of them) and allocating a node
-	parentFn *ssa.Function   // accessor returning .parent
-	extendM  *ssa.Function   // method storing to .children outside init
-	lookup   *ssa.Function   // recursive method returning *T with a string parameter
-	entries  []*ssa.Function
+	tm          *tree.Model
+	shape       *walkShape
+	walk        *ssa.Function
+	chain       *ssa.Function // cloneHierarchy
+	clone       *ssa.Function
+	clones      []*ssa.Function // every single-node copy function: called by the chain clone (or by another of them) and allocating a node
+	parentFn    *ssa.Function   // accessor returning .parent
+	extendM     *ssa.Function   // method storing to .children outside init
+	extendWrong *ssa.Store      // an exported method stores into the children of a node that is not its receiver
+	lookup      *ssa.Function   // recursive method returning *T with a string parameter
+	entries     []*ssa.Function
 }
 
 func getWalk(c *core.Ctx) *walkModel {
@@ -120,6 +121,12 @@ func getWalk(c *core.Ctx) *walkModel {
 				if st, ok := in.(*ssa.Store); ok {
 					if fa, ok := st.Addr.(*ssa.FieldAddr); ok && fa.Field == m.tm.FChildren && cm.isNodePtr(fa.X.Type()) && fa.X == ssa.Value(f.Params[0]) {
 						m.extendM = f
+					}
+					// the same with a node other than the receiver: remembered so that the rule can name it
+					if fa, ok := st.Addr.(*ssa.FieldAddr); ok && fa.Field == m.tm.FChildren && cm.isNodePtr(fa.X.Type()) && fa.X != ssa.Value(f.Params[0]) && exportedAPI(f) {
+						if _, fresh := fa.X.(*ssa.Alloc); !fresh {
+							m.extendWrong = st
+						}
 					}
 				}
 			}
